@@ -147,7 +147,12 @@ class SeqBuilder:
                 if isinstance(n, ast.Call) and isinstance(n.func, ast.Attribute) and isinstance(n.func.value, ast.Name) and n.func.value.id in self.env:
                     name, meth = n.func.value.id, n.func.attr
                     if meth == "append" and len(n.args) == 1:
-                        self.env[name] = self.env[name] + [("each", it, rev, n.args[0])]
+                        if isinstance(it, ast.Name) and it.id in self.env and norm(n.args[0]) == norm(s.target):
+                            # `for x in built: acc.append(x)` hands on the segments of the list that was built before
+                            part = list(self.env[it.id])
+                            self.env[name] = self.env[name] + (self._reverse(part) if rev else part)
+                        else:
+                            self.env[name] = self.env[name] + [("each", it, rev, n.args[0])]
                     elif meth == "insert" and len(n.args) == 2 and isinstance(n.args[0], ast.Constant) and n.args[0].value == 0:
                         self.env[name] = [("each", it, not rev, n.args[1])] + self.env[name]
                     elif meth in ("extend", "clear", "pop", "remove", "reverse", "sort"):
